@@ -114,3 +114,22 @@ func PoolReuse() bool {
 	}
 	return true
 }
+
+// CloneMap copies a map without drawing from the tape (order is irrelevant for a copy).
+func CloneMap[K comparable, V any](m map[K]V) map[K]V {
+	out := make(map[K]V, len(m))
+	for k, v := range m {
+		out[k] = v
+	}
+	return out
+}
+
+// Keys returns the keys of m in canonical (sorted) order without drawing from the tape.
+func Keys[K comparable, V any](m map[K]V) []K {
+	keys := make([]K, 0, len(m))
+	for k := range m {
+		keys = append(keys, k)
+	}
+	sortKeys(keys)
+	return keys
+}
